@@ -5,7 +5,7 @@
    so every theorem holds for all of Unicode. *)
 From Coq Require Import NArith List.
 From GV Require Import Base.Result Gen.TokenTypes Gen.Tokens Model.Lexer Spec.LexSpec
-  Proofs.C13.LexRun.
+  Proofs.C13.LexRun Proofs.C13.LexPosRun.
 Import ListNotations.
 Local Open Scope N_scope.
 
@@ -34,10 +34,48 @@ Theorem C13_lex_terminates : forall un ua s, terminates (lex un ua s).
 Proof. exact lex_terminates. Qed.
 Print Assumptions C13_lex_terminates.
 
+(* (c) every token carries the line and column of its first character, for inputs
+   without carriage return (excluded by the property text) and without form feed
+   (known finding C13-K1).  A line ends at a line feed; the column counts code points. *)
+Definition Known_C13_K1 (s : list N) : Prop := In 12 s.
+
+Theorem C13_positions_exact : forall un ua s ts,
+  ~ Known_C13_K1 s -> ~ In 13 s ->
+  lex un ua s = Ok ts ->
+  forall pre t post, ts = pre ++ t :: post ->
+    (tok_row t, tok_col t) = position_of (concat (map tok_text pre)).
+Proof. intros un ua s ts Hk Hcr H. exact (lex_positions_exact un ua s ts H Hcr Hk). Qed.
+Print Assumptions C13_positions_exact.
+
+(* the exclusion is necessary: `5\f6` reports the 6 at line 1, column 1; its first
+   character is at line 0, column 2 (and would be at line 1, column 0 if a form feed
+   were a line break) *)
+Theorem C13_K1_refuted : forall un ua, exists s ts,
+  Known_C13_K1 s /\ ~ In 13 s /\ lex un ua s = Ok ts /\
+  ~ (forall pre t post, ts = pre ++ t :: post ->
+       (tok_row t, tok_col t) = position_of (concat (map tok_text pre))).
+Proof.
+  intros un ua. exists [53; 12; 54].
+  exists [mkTok [53] TT_Number 0 0; mkTok [12] TT_Whitespace 0 1; mkTok [54] TT_Number 1 1].
+  split; [right; left; reflexivity|].
+  split; [intros [H|[H|[H|[]]]]; discriminate|].
+  split; [vm_compute; reflexivity|].
+  intros H.
+  specialize (H [mkTok [53] TT_Number 0 0; mkTok [12] TT_Whitespace 0 1] (mkTok [54] TT_Number 1 1) [] eq_refl).
+  vm_compute in H. discriminate.
+Qed.
+Print Assumptions C13_K1_refuted.
+
 (* non-vacuity: lex succeeds on inputs that exercise the repaired paths *)
 Example C13_ex_runs : forall un ua,
   lex un ua [53; 32; 10; 10; 32; 54] =
   Ok [mkTok [53] TT_Number 0 0; mkTok [32; 10; 10] TT_Subexpression 0 1; mkTok [32] TT_Whitespace 2 0; mkTok [54] TT_Number 2 1].
+Proof. intros. vm_compute. reflexivity. Qed.
+
+(* positions after a multi-line literal (repaired): `"a\nb" 5` *)
+Example C13_ex_multiline_literal : forall un ua,
+  lex un ua [34; 97; 10; 98; 34; 32; 53] =
+  Ok [mkTok [34; 97; 10; 98; 34] TT_CharList 0 0; mkTok [32] TT_Whitespace 1 2; mkTok [53] TT_Number 1 3].
 Proof. intros. vm_compute. reflexivity. Qed.
 
 (* a character that cannot start a token makes lex fail (`\ 5`), it is not skipped *)
